@@ -237,6 +237,29 @@ def collect_calls():
     return [(m, sigs[m]) for m in sigs], calls, consumes
 
 
+def measure_log2():
+    """MEASURED on this interpreter / libm, not derived from the source: for k = 1..64 the smallest n in (2^(k-1), 2^k) with
+    int(math.log2(n)) == k (the float logarithm of n rounds up to the integer k although n < 2^k), found by bisection
+    (math.log2 is monotone on the probed points: checked at both ends). No entry for a k without such an n."""
+    from math import log2
+    out = []
+    for k in range(1, 65):
+        lo, hi = 1 << (k - 1), 1 << k
+        if int(log2(lo)) != k - 1 or int(log2(hi)) != k:
+            raise TranslatorError(f'int(log2(2^{k - 1})) / int(log2(2^{k})) are not {k - 1} / {k}')
+        while hi - lo > 1:
+            mid = (lo + hi) // 2
+            if int(log2(mid)) >= k:
+                hi = mid
+            else:
+                lo = mid
+        if hi != 1 << k:
+            if int(log2(hi)) != k or int(log2(hi - 1)) != k - 1 or int(log2((1 << k) - 1)) != k:
+                raise TranslatorError(f'log2 is not monotone near 2^{k}')
+            out.append((k, hi))
+    return out
+
+
 LIVE_ENTRY_POINTS = [('_atom_identifiers', None), ('_chains', (1, 3)), ('_fragments', (1, 3)), ('linear_hash_set', (1, 3, 2)),
                      ('linear_bit_set', (1, 3, 64, 2, 2)), ('linear_fingerprint', (1, 3, 64, 2, 2)), ('_morgan_hash_dict', (1, 3)),
                      ('morgan_hash_set', (1, 3)), ('morgan_bit_set', (1, 3, 64, 2)), ('morgan_fingerprint', (1, 3, 64, 2))]
@@ -309,6 +332,9 @@ def generate():
     lines += [']', '', '/-- (method, its parameters that the body reads anywhere other than as a bare argument of a call in `calls`) -/',
               'def consumes : List (String × List String) := [']
     lines.append(',\n'.join(f'  ({lean_str(m)}, [{", ".join(lean_str(q) for q in ps)}])' for m, ps in consumes))
-    lines += [']', '', 'end ChythonModel.Gen.C17', '']
+    lines += [']', '', '/-- MEASURED (interpreter + libm of this machine): (k, t) for k ≤ 64 such that `int(math.log2(n)) = k` for t ≤ n < 2^k',
+              '    (the float logarithm rounds up to the integer) and `= k - 1` for 2^(k-1) ≤ n < t; no entry: never rounds up -/',
+              'def log2RoundsUpFrom : List (Nat × Nat) := [' + ', '.join(f'({k}, {t})' for k, t in measure_log2()) + ']']
+    lines += ['', 'end ChythonModel.Gen.C17', '']
     write_if_changed(OUT, '\n'.join(lines))
     return OUT, methods, keep, defaults
